@@ -382,7 +382,11 @@ fn get_root_details(ctx: &mut SyncContext) -> Result<(EntryDetails, Option<Entry
     // isn't appropriate.
     let dest_trailing_slash = last_dest_char == Some('/') || last_dest_char == Some('\\');
     if matches!(src_root_details, EntryDetails::File {..} | EntryDetails::Symlink { .. }) && dest_trailing_slash {
-        let src_filename = ctx.src_root.split(|c| c == '/' || c == '\\').last();
+        // A backslash only separates path components if the source platform says so: on a Unix source it is an
+        // ordinary file name character, and taking the text after it would put the file at the wrong place
+        // (for a source file called `x\..` even at the parent of the dest folder).
+        let src_has_backslash_separator = ctx.src_dir_separator == Some('\\');
+        let src_filename = ctx.src_root.split(|c| c == '/' || (c == '\\' && src_has_backslash_separator)).last();
         if let Some(c) = src_filename {
             ctx.dest_root = ctx.dest_root.clone() + c;
             debug!("Modified dest path to {}", ctx.dest_root);
